@@ -198,8 +198,8 @@ def c_traj(ctx, case):
 
 def g_stop(draw):
     c = gen.gmm_training_case(draw, max_rows=40 if gen.big() else 24, min_rows=4)
-    c["thr"] = gen.choice(draw, [1e-2, 1e-3, 1e-1, 1e-4, 3e-2, 1e-5, 1e-6, 1e-8, 0.0, None])
-    c["cap"] = gen.choice(draw, [12, None, 10, 8, 6, 5, 4, 3, 2, 1, 0])
+    c["thr"] = gen.choice(draw, [1e-2, 1e-3, 1e-1, 1e-4, 3e-2, 1e-5, 1e-6, 1e-8, 0.0, None, 1e-10, 1e-12, 1e-8])
+    c["cap"] = gen.choice(draw, [12, None, 10, 8, 6, 5, 4, 3, 2, 1, 0, 30, 30])
     if c["thr"] is None and c["cap"] is None:
         c["cap"] = 3
     if c["cap"] is None and c["thr"] < 1e-6:
@@ -224,14 +224,23 @@ def c_stop(ctx, case):
     kstar, closest = ref.stop_iteration(L[: Kmax + 1], thr, cap)
     if kstar is None:
         ctx.discard("no stop within 40 iterations and no cap")
-    if closest < 1e-6:
+    if closest < 1e-6 and not (thr == 0.0 and closest >= 1e-11):
         ctx.discard("convergence value within 1e-6 of the threshold")
     if any(active[1:kstar + 2]):
         ctx.discard("floor active (trajectory ill-conditioned)")
     g = machine(init, upd, thr, cap)
     with guard.budget(kstar + 2):  # the rule stops at k*: a fit that is still iterating after k*+2 is reported, not waited for
         fit(g, case)
+        n_steps = guard.steps()
     got = sut.params_of(g)
+    # the number of iterations performed is decided exactly whenever no convergence value comes near the threshold
+    # (rounding moves a convergence value by ~1e-15 absolute; an exact 0 is a coin toss between summation orders)
+    convs = [abs((L[k - 1] - L[k]) / L[k - 1]) if L[k - 1] != 0 else np.inf for k in range(2, kstar + 1)]
+    sure = thr is None or all(abs(cv - thr) > 1e-6 * thr + 1e-12 for cv in convs)
+    if sure:
+        ctx.event("iteration count decided exactly")
+        ctx.check(n_steps == kstar, "fit(threshold=%r, cap=%r) performed %d iterations, the stop rule says %d; convergence "
+                  "values %s" % (thr, cap, n_steps, kstar, ["%.3g" % cv for cv in convs[-4:]]), "wrong-iteration-count")
 
     def dist(a, b):
         d = 0.0
